@@ -51,10 +51,13 @@ Print Assumptions C16_compile_dot_assign_unbalanced_before_fix.
 
 (* ---------- the expression fragment is compiled correctly ---------- *)
 (* For every expression built from number/bool/string literals, array
-   literals `[e1 e2 …]` (nested), global variables, unary - and !, the binary
+   literals `[e1 e2 …]` (nested), map literals `{k1:e1 k2:e2 …}` (no key twice:
+   len(Pairs) = len(Order); the value is the list of pairs in source order, as
+   OpMap rebuilds it), global variables, unary - and !, the binary
    operators on numbers and strings, ==/!= and index reads `a[i]` on strings
-   (by code point) and arrays (negative indices count from the end; an index
-   error leaves eval_expr undefined)  (efrag), compiled from any compiler state: wherever the emitted
+   (by code point), arrays (negative indices count from the end) and maps
+   (`m[k]` with a string key; an index error or a missing key leaves eval_expr
+   undefined)  (efrag), compiled from any compiler state: wherever the emitted
    segment is placed in a program whose constant table starts with the
    compiler's constants, running the VM model from the segment's first
    instruction executes exactly the segment and leaves the stack as it was
@@ -112,7 +115,7 @@ Print Assumptions C16_compile_correct_straightline.
    `for x := range iterable` — and `for range iterable` without loop variable,
    anywhere — over the elements of an array, the characters of a string or the
    keys of a map, counted like the VM with a number starting at 0) and `break` (inside a loop only: nb_stmt), arbitrarily nested, all expressions in efrag
-   (_partial: no loop variables inside blocks, no block-local declarations, no maps / slices / element stores).  The boolean of a result of exec_l says that a break is
+   (_partial: no loop variables inside blocks, no block-local declarations, no slices, no element stores `a[i] = e` / `m[k] = e`).  The boolean of a result of exec_l says that a break is
    under way; the innermost loop ends it.  The VM keeps the state of a range
    loop (index, step, stop) on the operand stack: the simulation carries the
    stack `base` below the statement, and OpDrop removes the state at the exit
@@ -150,8 +153,9 @@ Print Assumptions C16_compile_correct_ctl_partial.
    for (the compiler makes it a LOCAL of the block's scope and gives it a slot
    of the VM's locals area; slots are reused once a block is closed) —, and
    assignments `x = e` go to whatever the name resolves to.  Expressions are
-   in efrag and read globals and locals (_partial: no maps / slices / element
-   stores, no function calls, hence no call frames).  The semantics lx_l
+   in efrag and read globals and locals (_partial: no slices, no element
+   stores `a[i] = e` / `m[k] = e` — Vm.v has value semantics for arrays and
+   maps, its OpSetIndex only checks —, no function calls, hence no call frames).  The semantics lx_l
    (CompileSem.v) is the fuel-indexed big-step semantics of before over an
    environment WITH BLOCK SCOPES: a list of frames, innermost first, the last
    one the globals; a block pushes an empty frame and pops it at its end (also
@@ -228,8 +232,8 @@ Print Assumptions C16_compile_wf_large_before_fix.
    LOCAL of the block's scope —, assignments `x = e` to globals and locals,
    if / else-if / else chains, while, break, `for range …` without a loop
    variable — arbitrarily nested, with all expressions in the expression
-   fragment efrag (reads of globals and locals, array literals, index reads;
-   _partial: no maps / slices / element stores, no function calls).  For every such program: if the compiler
+   fragment efrag (reads of globals and locals, array and map literals, index reads;
+   _partial: no slices / element stores, no function calls).  For every such program: if the compiler
    succeeds and leaves no pending break (a break outside a loop, which the
    parser rejects), its output satisfies WF with LocalCount = the
    nestedMaxIndex of the compiler's root table:
@@ -530,6 +534,33 @@ Example C16_ex_foriter0_defined :
   match compile ex_foriter0 with
   | COk st => match vm_run 4000 (program_of (bytecode_of st)) (vm_init (program_of (bytecode_of st))) with
               | FHalted s => globals s = [VNum (float_of_Z 6)] /\ ostack s = []
+              | _ => False
+              end
+  | CErr _ => False
+  end.
+Proof. vm_compute. repeat split; try reflexivity. discriminate. Qed.
+
+(* m := {a:1 b:2}; x := m["b"] + {c:5}["c"]; t := ""; for k := range m: t = t + k end
+   -- x = 7, t = "ab" (map literals are in efrag; m[k] goes through index_value) *)
+Definition ex_map : slist :=
+  let num k := ENum (float_of_Z k) in
+  SCons (SDecl (s_ "m") (EMap (PCons (s_ "a") (num 1%Z) (PCons (s_ "b") (num 2%Z) PNil)) 2%Z))
+ (SCons (SDecl (s_ "x") (EBin BPlus TNum TNum (EIndex (EVar (s_ "m")) (EStr (s_ "b")))
+                                             (EIndex (EMap (PCons (s_ "c") (num 5%Z) PNil) 1%Z) (EStr (s_ "c")))))
+ (SCons (SDecl (s_ "t") (EStr (s_ "")))
+ (SCons (SForIter (Some (s_ "k")) TMap (EVar (s_ "m"))
+          (SCons (SAssign (EVar (s_ "t")) (EBin BPlus TStr TStr (EVar (s_ "t")) (EVar (s_ "k")))) SNil)) SNil))).
+
+Example C16_ex_map_defined :
+  psfrag ex_map = true /\ lpfrag ex_map = true /\ (ldepth ex_map <= Gen.Opcodes.StackSize)%N /\
+  match exec_l 40 ex_map (fun _ => None) with
+  | Some (env, false) => env (s_ "x") = Some (VNum (float_of_Z 7)) /\ env (s_ "t") = Some (VStr [97%N; 98%N]) /\
+                         env (s_ "m") = Some (VMap [([97%N], VNum (float_of_Z 1)); ([98%N], VNum (float_of_Z 2))])
+  | _ => False
+  end /\
+  match compile ex_map with
+  | COk st => match vm_run 4000 (program_of (bytecode_of st)) (vm_init (program_of (bytecode_of st))) with
+              | FHalted s => nth_error (globals s) 1 = Some (VNum (float_of_Z 7)) /\ nth_error (globals s) 2 = Some (VStr [97%N; 98%N]) /\ ostack s = []
               | _ => False
               end
   | CErr _ => False
